@@ -262,6 +262,26 @@ def bool_for(e, variant, lets, opname, depth=0):
         return None if a is None else bool_for(a["body"], variant, lets, opname, depth + 1)
     if k == "block" and len(e["stmts"]) == 1 and e["stmts"][0]["k"] == "expr":
         return bool_for(e["stmts"][0]["e"], variant, lets, opname, depth + 1)
+    if k == "paren":
+        return bool_for(e["e"], variant, lets, opname, depth + 1)
+    if k == "macro" and str(e.get("name", "")).split("::")[-1] == "matches" and e.get("args") and len(e["args"]) == 2 and show(e["args"][0], 0).lstrip("&*") in (opname, "self"):
+        # matches!(operator, JoinOperator::A(_) | JoinOperator::B) — the pattern is parsed as an expression: alternatives joined by `|`
+        alts, st = [], [e["args"][1]]
+        while st:
+            x = st.pop()
+            if x["k"] == "binary" and x["op"] == "|":
+                st += [x["lhs"], x["rhs"]]
+            elif x["k"] == "paren":
+                st.append(x["e"])
+            else:
+                alts.append(x)
+        names = set()
+        for x in alts:
+            p = path_of(x["f"]) if x["k"] == "call" else path_of(x)
+            if not p or x["k"] not in ("call", "path") or (x["k"] == "call" and any(show(a, 0) != "_" for a in x["args"])):
+                return None
+            names.add(p.split("::")[-1])
+        return variant in names
     return None
 
 
